@@ -10,8 +10,8 @@ use std::net::{IpAddr, Ipv4Addr, Ipv6Addr, SocketAddr};
 use std::sync::Arc;
 use std::time::Duration;
 
-const REMOTE_UFRAG: &str = "peerufrag01";
-const REMOTE_PWD: &str = "peer-password-0123456789ab";
+pub(super) const REMOTE_UFRAG: &str = "peerufrag01";
+pub(super) const REMOTE_PWD: &str = "peer-password-0123456789ab";
 
 fn mk_transport(prefer_srflx: bool, role: IceRole) -> IceTransport {
     let mut cfg = rustrtc::RtcConfiguration::default();
@@ -51,34 +51,41 @@ fn order_cases(run: &mut Run, rng: &mut Rng, rt: &tokio::runtime::Runtime, thoro
             if rng.chance(1, 4) { c.priority = *rng.pick(&[1u32, 100, 2130706431, 1694498815, 16777215, 0x7fff_ffff]); }
             c
         };
-        let nl = rng.range(1, if i % 5 == 0 { 5 } else { 3 }) as usize;
+        // preamble variants: state other than Checking / a pair already selected (nothing happens), no local candidate at
+        // all (a controlling agent synthesizes active-TCP locals for remote passive-TCP candidates)
+        let variant = if i % 9 == 4 { 1 } else if i % 9 == 5 { 2 } else if i % 9 == 6 { 3 } else { 0 };
+        let nl = if variant == 3 { 0 } else { rng.range(1, if i % 5 == 0 { 5 } else { 3 }) as usize };
         let nr = rng.range(1, 4) as usize;
         let locals: Vec<IceCandidate> = (0..nl).map(|_| mkc(rng, false)).collect();
         let remotes: Vec<IceCandidate> = (0..nr).map(|_| mkc(rng, true)).collect();
+        let remotes: Vec<IceCandidate> = if variant == 3 { remotes.into_iter().map(|mut r| { if rng.chance(1, 2) { r = IceCandidate::host_tcp(SocketAddr::new(ips[2], r.address.port()), r.component, TcpType::Passive); } r }).collect() } else { remotes };
         for l in &locals { t.verif_add_local_candidate(l.clone()); }
         for r in &remotes { t.verif_add_remote_candidate_quiet(r.clone()); }
+        if variant == 1 { t.verif_set_state(*rng.pick(&[IceTransportState::New, IceTransportState::Connected, IceTransportState::Completed, IceTransportState::Failed, IceTransportState::Disconnected])); }
+        if variant == 2 { t.verif_set_selected_pair(Some(rustrtc::transports::ice::IceCandidatePair::new(locals[0].clone(), remotes[0].clone()))); }
         pairs::take();
         rt.block_on(t.verif_run_connectivity_checks());
         let rec = pairs::take();
-        let id = |a: SocketAddr| a.port() as u32 - 40000;
+        let id = |a: SocketAddr| if a.port() == 0 { 99999 } else { a.port() as u32 - 40000 };
         let out = match rec.last() { Some(l) if !l.is_empty() => l.iter().map(|(a, b, _)| format!("{}>{}", id(*a), id(*b))).collect::<Vec<_>>().join(";"), _ => "-".to_string() };
         let ctext = |side: &str, c: &IceCandidate| {
             let private = match c.address.ip() { IpAddr::V4(v) => v.is_private(), IpAddr::V6(v) => v.is_unique_local() };
             format!("{side},{},{},{},{},{},{},{},{},{}", id(c.address), c.priority, (c.transport == "tcp") as u8, c.component, c.address.ip().is_loopback() as u8,
                 c.address.is_ipv4() as u8, (c.tcp_type == Some(TcpType::Passive)) as u8, (c.typ == IceCandidateType::Host) as u8, private as u8) };
-        let input = format!("{} {} {}", if role == IceRole::Controlling { "controlling" } else { "controlled" }, prefer as u8,
+        let input = format!("{} {},{},{} {}", if role == IceRole::Controlling { "controlling" } else { "controlled" }, prefer as u8, (variant != 1) as u8, (variant == 2) as u8,
             locals.iter().map(|c| ctext("L", c)).chain(remotes.iter().map(|c| ctext("R", c))).collect::<Vec<_>>().join(" "));
         run.case("pairorder", &input, &out, out != "-");
+        run.count(&format!("pairorder_preamble_variant_{variant}_{}", if out == "-" { "nothing" } else { "list" }));
         // oracle (RFC 8445 §6.1.2.3): without the re-sort the list is in non-increasing pair-priority order
         if let Some(l) = rec.last() { if !prefer && l.windows(2).any(|w| w[0].2 < w[1].2) { run.fail("codec:pair-order:not-descending-by-pair-priority", &format!("pairorder {input}"), &out); } }
         t.stop();
     }
 }
 
-struct Seen { from: SocketAddr, to: usize, bytes: Vec<u8> }
+pub(super) struct Seen { pub from: SocketAddr, pub to: usize, pub bytes: Vec<u8> }
 
 /// check one composed connectivity-check / nomination request with the reference crate
-fn check_request(run: &mut Run, case: &str, t: &IceTransport, role: IceRole, local_prio: u32, s: &Seen, expect_nominated: Option<bool>) -> bool {
+pub(super) fn check_request(run: &mut Run, case: &str, t: &IceTransport, role: IceRole, local_prio: u32, s: &Seen, expect_nominated: Option<bool>) -> bool {
     use stun::attributes::*;
     use stun::message::*;
     let lp = t.local_parameters();
@@ -164,8 +171,374 @@ fn message_cases(run: &mut Run, rng: &mut Rng, rt: &tokio::runtime::Runtime, tho
     }
 }
 
+/// RFC 8445 §6.1.2.3 pair priority, written from the RFC text
+fn rfc_pair_priority(controlling: bool, local: u32, remote: u32) -> u64 {
+    let (g, d) = if controlling { (local as u64, remote as u64) } else { (remote as u64, local as u64) };
+    (1u64 << 32) * g.min(d) + 2 * g.max(d) + if g > d { 1 } else { 0 }
+}
+
+fn mk_transport_t(role: IceRole, timeout_ms: u64) -> IceTransport {
+    let mut cfg = rustrtc::RtcConfiguration::default();
+    cfg.stun_timeout = Duration::from_millis(timeout_ms);
+    cfg.nomination_timeout = Duration::from_millis(timeout_ms);
+    let (t, _runner) = IceTransport::new(cfg);
+    t.set_role(role);
+    t.set_remote_parameters(IceParameters::new(REMOTE_UFRAG, REMOTE_PWD));
+    t.verif_set_state(IceTransportState::Checking);
+    t
+}
+
+/// (C) which pair the agent ends up USING: `nl` x `nr` UDP pairs with pairwise distinct pair priorities, a
+/// responder that answers the plain checks of the pairs in `check_mask` and the nominations (USE-CANDIDATE) of
+/// the pairs in `nom_mask` (bit `li * nr + ri`). Oracle (RFC 8445 §8.1.1 / §6.1.2.3, implementation only): the
+/// selected pair is the highest-priority pair among the successful nominations (controlling; among the
+/// successful checks if no nomination succeeded) resp. among the successful checks (controlled).
+pub fn selection_case(run: &mut Run, rt: &tokio::runtime::Runtime, controlling: bool, nl: usize, nr: usize, check_mask: u32, nom_mask: u32, peer_nominated: bool) {
+    let role = if controlling { IceRole::Controlling } else { IceRole::Controlled };
+    let case = format!("select {} {nl} {nr} {check_mask} {nom_mask} {}", if controlling { "controlling" } else { "controlled" }, peer_nominated as u8);
+    let t = mk_transport_t(role, 500);
+    if peer_nominated { t.verif_set_nomination_complete(Some(true)); }
+    let locals: Vec<Arc<tokio::net::UdpSocket>> = (0..nl).map(|_| Arc::new(rt.block_on(tokio::net::UdpSocket::bind("127.0.0.1:0")).unwrap())).collect();
+    let peers: Vec<std::net::UdpSocket> = (0..nr).map(|_| { let s = std::net::UdpSocket::bind("127.0.0.1:0").unwrap(); s.set_nonblocking(true).unwrap(); s }).collect();
+    // distinct priorities on both sides: the LAST local / remote is the best one (so that neither insertion
+    // order nor "first to answer" coincides with the right choice)
+    let mut lcands = vec![]; let mut rcands = vec![];
+    for (k, l) in locals.iter().enumerate() { let mut c = IceCandidate::host(l.local_addr().unwrap(), 1); c.priority -= 256 * (3 * (nl - 1 - k) as u32 + 1); t.verif_add_local_udp(c.clone(), l.clone()); lcands.push(c); }
+    for (k, p) in peers.iter().enumerate() { let mut c = IceCandidate::host(p.local_addr().unwrap(), 1); c.priority -= 256 * (7 * (nr - 1 - k) as u32 + 2); t.verif_add_remote_candidate_quiet(c.clone()); rcands.push(c); }
+    let answered: std::cell::RefCell<Vec<(bool, usize, usize)>> = Default::default();
+    let t2 = t.clone();
+    rt.block_on(async {
+        let responder = async {
+            let mut buf = [0u8; 2048];
+            loop {
+                for (ri, p) in peers.iter().enumerate() {
+                    while let Ok((n, from)) = p.recv_from(&mut buf) {
+                        if n < 20 { continue; }
+                        let bytes = buf[..n].to_vec();
+                        let Some(li) = locals.iter().position(|l| l.local_addr().unwrap() == from) else { continue };
+                        let mut m = stun::message::Message::new(); m.raw = bytes.clone();
+                        if m.decode().is_err() { continue; }
+                        let nomination = m.contains(stun::attributes::ATTR_USE_CANDIDATE);
+                        let bit = 1u32 << (li * nr + ri);
+                        if (if nomination { nom_mask } else { check_mask }) & bit == 0 { continue; }
+                        let tx: [u8; 12] = bytes[8..20].try_into().unwrap();
+                        let resp = rustrtc::transports::ice::stun::StunMessage::binding_success_response(tx, from).encode(None, true).unwrap();
+                        answered.borrow_mut().push((nomination, li, ri));
+                        t2.verif_handle_packet(&resp, p.local_addr().unwrap(), IceSocketWrapper::Udp(locals[li].clone())).await;
+                    }
+                }
+                tokio::time::sleep(Duration::from_millis(1)).await;
+            }
+        };
+        tokio::select! { biased; _ = t.verif_run_connectivity_checks() => {}, _ = responder => {} }
+    });
+    pairs::take();
+    let answered = answered.into_inner();
+    let id = |c: &IceCandidate, cs: &[IceCandidate]| cs.iter().position(|x| x.address == c.address).unwrap();
+    let sel = t.get_selected_pair();
+    let out = match &sel {
+        None => "-".to_string(),
+        Some(p) => format!("{}>{} nc={} state={}", id(&p.local, &lcands), 10 + id(&p.remote, &rcands),
+            match t.verif_nomination_complete() { None => "-", Some(true) => "true", Some(false) => "false" },
+            match t.state() { IceTransportState::Connected => "connected", IceTransportState::Failed => "failed", _ => "other" }),
+    };
+    // model line: the successful checks / nominations in the order the responder answered them
+    let items: Vec<String> = answered.iter().filter(|(nom, _, _)| controlling || !*nom).map(|(nom, li, ri)| format!("{},{},{},0,{},{}", if *nom { "N" } else { "S" }, li, lcands[*li].priority, 10 + ri, rcands[*ri].priority)).collect();
+    let out_cmp = if peer_nominated && !controlling && sel.is_none() { "-".to_string() } else { out.clone() };
+    run.case("select", &format!("{} {} {}", if controlling { "controlling" } else { "controlled" }, peer_nominated as u8, items.join(" ")).trim_end().to_string(), &out_cmp, !items.is_empty());
+    // oracle
+    let best = |noms: bool| -> Option<(usize, usize)> { answered.iter().filter(|(n, _, _)| *n == noms).map(|(_, li, ri)| (*li, *ri))
+        .max_by_key(|(li, ri)| rfc_pair_priority(controlling, lcands[*li].priority, rcands[*ri].priority)) };
+    let got = sel.as_ref().map(|p| (id(&p.local, &lcands), id(&p.remote, &rcands)));
+    let rname = if controlling { "controlling" } else { "controlled" };
+    let succ_best = best(false);
+    if controlling {
+        match (succ_best, best(true)) {
+            (None, _) => if got.is_some() { run.fail("agent-selection:controlling:pair-selected-without-successful-check", &case, &out); },
+            (Some(_), Some(nb)) => {
+                if got != Some(nb) { run.fail("agent-selection:controlling:selected-pair-is-not-the-highest-priority-nominated-pair", &case, &format!("{out} want {nb:?} answered {answered:?}")); }
+                if t.verif_nomination_complete() != Some(true) || t.state() != IceTransportState::Connected { run.fail("agent-selection:controlling:nomination-not-completed", &case, &out); }
+            }
+            (Some(sb), None) => {
+                if got != Some(sb) { run.fail("agent-selection:controlling:best-effort-pair-is-not-the-highest-priority-successful-pair", &case, &format!("{out} want {sb:?} answered {answered:?}")); }
+                if t.verif_nomination_complete() != Some(false) || t.state() != IceTransportState::Failed { run.fail("agent-selection:controlling:failed-nomination-not-reported", &case, &out); }
+            }
+        }
+    } else if peer_nominated {
+        if got.is_some() { run.fail("agent-selection:controlled:peer-nominated-pair-overwritten", &case, &out); }
+    } else {
+        if got != succ_best { run.fail("agent-selection:controlled:selected-pair-is-not-the-highest-priority-successful-pair", &case, &format!("{out} want {succ_best:?} answered {answered:?}")); }
+        if answered.iter().any(|(n, _, _)| *n) { run.fail("agent-message:check:use-candidate-from-controlled-agent", &case, ""); }
+    }
+    let _ = rname;
+    run.count(&format!("agent_selection_{rname}_succ{}_nom{}", answered.iter().filter(|a| !a.0).count().min(9), answered.iter().filter(|a| a.0).count().min(9)));
+    t.stop();
+}
+
+fn selection_cases(run: &mut Run, rng: &mut Rng, rt: &tokio::runtime::Runtime, thorough: bool) {
+    // fixed corners: everything answered (2x2, 3x2), nominations only for the worst pair, no nomination answered,
+    // only the two worst pairs reachable, controlled agent after the peer nominated
+    let full4 = 0b1111u32; let full6 = 0b111111u32;
+    for controlling in [true, false] {
+        selection_case(run, rt, controlling, 2, 2, full4, full4, false);
+        selection_case(run, rt, controlling, 3, 2, full6, full6, false);
+        selection_case(run, rt, controlling, 2, 2, full4, 0b0011, false);
+        selection_case(run, rt, controlling, 2, 2, 0b0110, 0b0110, false);
+    }
+    selection_case(run, rt, true, 2, 2, full4, 0, false);
+    selection_case(run, rt, false, 2, 2, full4, 0, true);
+    let n = if thorough { 60 } else { 6 };
+    for _ in 0..n {
+        let (nl, nr) = *rng.pick(&[(2usize, 2usize), (2, 3), (3, 2), (1, 3), (3, 1)]);
+        let bits = (nl * nr) as u32;
+        let mut cm = rng.next() as u32 & ((1 << bits) - 1);
+        if cm == 0 { cm = 1 << rng.below(bits as u64); }
+        let nm = if rng.chance(1, 5) { 0 } else { rng.next() as u32 & cm };
+        selection_case(run, rt, rng.chance(1, 2), nl, nr, cm, nm, false);
+    }
+}
+
+/// (D) ICE-TCP: the request `perform_tcp_binding_check` writes on a fresh TCP connection to a remote passive
+/// candidate (a harness listener): RFC 4571 framing (2-byte length = message length) and the same
+/// connectivity-check composition as over UDP. `synth`: the controlling agent has no local candidate at all and
+/// synthesizes an active-TCP local (preamble of `perform_connectivity_checks_async`).
+pub fn tcp_check_case(run: &mut Run, rt: &tokio::runtime::Runtime, controlling: bool, synth: bool, respond: bool) {
+    let role = if controlling { IceRole::Controlling } else { IceRole::Controlled };
+    let case = format!("tcpcheck {} {} {}", if controlling { "controlling" } else { "controlled" }, synth as u8, respond as u8);
+    let t = mk_transport_t(role, 500);
+    let local = IceCandidate::tcp(SocketAddr::new(IpAddr::V4(Ipv4Addr::UNSPECIFIED), 0), 1, "active");
+    if !synth { t.verif_add_local_candidate(local.clone()); }
+    let dummy = Arc::new(rt.block_on(tokio::net::UdpSocket::bind("127.0.0.1:0")).unwrap());
+    let seen: std::cell::RefCell<Vec<(Vec<u8>, usize)>> = Default::default();
+    let t2 = t.clone();
+    rt.block_on(async {
+        let listener = tokio::net::TcpListener::bind("127.0.0.1:0").await.unwrap();
+        let laddr = listener.local_addr().unwrap();
+        t.verif_add_remote_candidate_quiet(IceCandidate::host_tcp(laddr, 1, TcpType::Passive));
+        let responder = async {
+            use tokio::io::AsyncReadExt;
+            let mut conns = vec![];
+            loop {
+                let (mut s, _) = listener.accept().await.unwrap();
+                let mut hdr = [0u8; 2];
+                if tokio::time::timeout(Duration::from_millis(400), s.read_exact(&mut hdr)).await.map(|r| r.is_ok()).unwrap_or(false) {
+                    let n = u16::from_be_bytes(hdr) as usize;
+                    let mut body = vec![0u8; n];
+                    if tokio::time::timeout(Duration::from_millis(400), s.read_exact(&mut body)).await.map(|r| r.is_ok()).unwrap_or(false) {
+                        // anything written behind the frame right away would be a framing error
+                        let mut extra = [0u8; 64];
+                        let trailing = match tokio::time::timeout(Duration::from_millis(5), s.read(&mut extra)).await { Ok(Ok(k)) => k, _ => 0 };
+                        seen.borrow_mut().push((body.clone(), trailing));
+                        if respond && n >= 20 {
+                            let tx: [u8; 12] = body[8..20].try_into().unwrap();
+                            let resp = rustrtc::transports::ice::stun::StunMessage::binding_success_response(tx, s.peer_addr().unwrap()).encode(None, true).unwrap();
+                            t2.verif_handle_packet(&resp, laddr, IceSocketWrapper::Udp(dummy.clone())).await;
+                        }
+                    } else { seen.borrow_mut().push((hdr.to_vec(), usize::MAX)); }
+                }
+                conns.push(s);
+            }
+        };
+        tokio::select! { biased; _ = t.verif_run_connectivity_checks() => {}, _ = responder => {} }
+    });
+    pairs::take();
+    let seen = seen.into_inner();
+    if seen.is_empty() { run.fail("agent-message:tcp-check:none-sent", &case, ""); }
+    let mut nominations = 0;
+    for (bytes, trailing) in &seen {
+        if *trailing == usize::MAX { run.fail("agent-message:tcp-check:rfc4571-length-prefix-does-not-delimit-the-message", &case, &hex(bytes)); continue; }
+        if *trailing != 0 { run.fail("agent-message:tcp-check:bytes-behind-the-frame", &case, &format!("{trailing}")); }
+        if bytes.len() < 20 || 20 + u16::from_be_bytes([bytes[2], bytes[3]]) as usize != bytes.len() { run.fail("agent-message:tcp-check:rfc4571-length-prefix-does-not-delimit-the-message", &case, &hex(bytes)); continue; }
+        let s = Seen { from: SocketAddr::new(IpAddr::V4(Ipv4Addr::UNSPECIFIED), 0), to: 0, bytes: bytes.clone() };
+        if check_request(run, &case.replace("tcpcheck", "tcp-check"), &t, role, local.priority, &s, if respond { None } else { Some(false) }) { nominations += 1; }
+    }
+    if respond && controlling {
+        if nominations == 0 { run.fail("agent-message:tcp-check:no-use-candidate-request-sent", &case, ""); }
+        if t.verif_nomination_complete() != Some(true) || t.get_selected_pair().is_none() { run.fail("agent-message:tcp-check:nomination-not-completed", &case, &format!("{:?} {:?}", t.verif_nomination_complete(), t.state())); }
+    }
+    if !controlling && nominations > 0 { run.fail("agent-message:check:use-candidate-from-controlled-agent", &case, ""); }
+    run.count(&format!("agent_tcp_checks_seen_{}", seen.len().min(9)));
+    t.stop();
+}
+
+/// (E) the other requests the agent composes: the credentialed keepalive and the credential-less keepalive of
+/// `run_keepalive_tick`, and the server-reflexive probe of `probe_stun`; checked by the reference crate and
+/// compared byte for byte with `IcePairs.keepalive` / `bareBinding`.
+pub fn keepalive_probe_case(run: &mut Run, rt: &tokio::runtime::Runtime, kind: &str, controlling: bool) {
+    use stun::attributes::*;
+    use stun::message::*;
+    let case = format!("agentreq {kind} {}", if controlling { "controlling" } else { "controlled" });
+    let webrtc = kind != "bare";
+    let mut cfg = rustrtc::RtcConfigurationBuilder::new().transport_mode(if webrtc { rustrtc::TransportMode::WebRtc } else { rustrtc::TransportMode::Rtp }).build();
+    cfg.stun_timeout = Duration::from_millis(40);
+    let (t, _runner) = IceTransport::new(cfg);
+    t.set_role(if controlling { IceRole::Controlling } else { IceRole::Controlled });
+    if kind == "keepalive" { t.set_remote_parameters(IceParameters::new(REMOTE_UFRAG, REMOTE_PWD)); }
+    let lp = t.local_parameters();
+    let peer = std::net::UdpSocket::bind("127.0.0.1:0").unwrap();
+    peer.set_read_timeout(Some(Duration::from_millis(300))).unwrap();
+    let mut prio = 0u32;
+    if kind == "probe" {
+        let _ = rt.block_on(t.verif_probe_stun(peer.local_addr().unwrap()));
+    } else {
+        let l = Arc::new(rt.block_on(tokio::net::UdpSocket::bind("127.0.0.1:0")).unwrap());
+        let mut lc = IceCandidate::host(l.local_addr().unwrap(), 1);
+        lc.priority -= 256 * 5;
+        prio = lc.priority;
+        t.verif_add_local_udp(lc.clone(), l.clone());
+        let rc = IceCandidate::host(peer.local_addr().unwrap(), 1);
+        t.verif_add_remote_candidate_quiet(rc.clone());
+        t.verif_set_selected_pair(Some(rustrtc::transports::ice::IceCandidatePair::new(lc, rc)));
+        t.verif_set_state(IceTransportState::Connected);
+        rt.block_on(t.verif_run_keepalive_tick());
+    }
+    let mut buf = [0u8; 2048];
+    let Ok((n, _)) = peer.recv_from(&mut buf) else { run.fail(&format!("agent-message:{kind}:none-sent"), &case, ""); t.stop(); return; };
+    let bytes = buf[..n].to_vec();
+    let mut m = Message::new(); m.raw = bytes.clone();
+    if m.decode().is_err() { run.fail(&format!("agent-message:{kind}:undecodable"), &case, &hex(&bytes)); t.stop(); return; }
+    if m.typ != BINDING_REQUEST { run.fail(&format!("agent-message:{kind}:not-binding-request"), &case, &format!("{}", m.typ)); }
+    if m.get(ATTR_SOFTWARE).ok().as_deref() != Some(b"rustrtc") { run.fail(&format!("agent-message:{kind}:software"), &case, ""); }
+    match kind {
+        "keepalive" => {
+            let want = format!("{REMOTE_UFRAG}:{}", lp.username_fragment);
+            if m.get(ATTR_USERNAME).ok().as_deref() != Some(want.as_bytes()) { run.fail("agent-message:keepalive:username-is-not-remote-colon-local", &case, &hex(&bytes)); }
+            if stun::integrity::MessageIntegrity(REMOTE_PWD.as_bytes().to_vec()).check(&mut m).is_err() { run.fail("agent-message:keepalive:message-integrity-not-under-remote-password", &case, ""); }
+            if stun::fingerprint::FINGERPRINT.check(&m).is_err() { run.fail("agent-message:keepalive:fingerprint", &case, ""); }
+            if m.get(ATTR_PRIORITY).ok() != Some(prio.to_be_bytes().to_vec()) { run.fail("agent-message:keepalive:priority-is-not-local-candidate-priority", &case, ""); }
+            if m.contains(ATTR_USE_CANDIDATE) { run.fail("agent-message:keepalive:use-candidate", &case, ""); }
+        }
+        "bare" => { if m.contains(ATTR_USERNAME) || m.contains(ATTR_MESSAGE_INTEGRITY) || m.contains(ATTR_FINGERPRINT) { run.fail("agent-message:bare:unexpected-attribute", &case, &hex(&bytes)); } }
+        _ => {
+            if stun::fingerprint::FINGERPRINT.check(&m).is_err() { run.fail("agent-message:probe:fingerprint", &case, ""); }
+            if m.contains(ATTR_USERNAME) || m.contains(ATTR_MESSAGE_INTEGRITY) { run.fail("agent-message:probe:unexpected-attribute", &case, &hex(&bytes)); }
+        }
+    }
+    let (lu, ru, rpw) = if kind == "keepalive" { (hex(lp.username_fragment.as_bytes()), hex(REMOTE_UFRAG.as_bytes()), hex(REMOTE_PWD.as_bytes())) } else { ("00".into(), "00".into(), "00".into()) };
+    run.case("agentmsg", &format!("{kind} {} {lu} {ru} {rpw} {} {prio} 0 0", hex(&bytes[8..20]), if controlling { "controlling" } else { "controlled" }), &hex(&bytes), true);
+    run.count(&format!("agent_{kind}_messages"));
+    t.stop();
+}
+
+/// (F) the agreement clause on the IMPLEMENTATION: agent A (controlling, locals LA, remotes LB) and agent B
+/// (controlled, locals LB, remotes LA) — two real transports, the same candidate objects, recorded check lists.
+/// Where the formation filter is symmetric on this input, no pair is formed twice and all pair priorities are
+/// distinct (the hypotheses of `pair_order_agree_stack`, decided here on the recorded lists) the two lists must
+/// be each other's swap; with tied pair priorities they may differ (known finding, `pair_order_tie_witness`).
+fn two_agent_cases(run: &mut Run, rng: &mut Rng, rt: &tokio::runtime::Runtime, thorough: bool) {
+    let ips: [IpAddr; 5] = [IpAddr::V4(Ipv4Addr::new(10, 0, 0, 5)), IpAddr::V4(Ipv4Addr::new(192, 168, 1, 7)), IpAddr::V4(Ipv4Addr::new(203, 0, 113, 9)),
+        IpAddr::V4(Ipv4Addr::new(198, 51, 100, 3)), IpAddr::V6(Ipv6Addr::new(0x2001, 0xdb8, 0, 0, 0, 0, 0, 2))];
+    let n = if thorough { 3000 } else { 300 };
+    for i in 0..n {
+        let mut port = 41000u16;
+        let multihomed = i % 3 == 0;          // same-type candidates with the stack's own (equal) priorities
+        let mut mkc = |rng: &mut Rng| -> IceCandidate {
+            port += 1;
+            let addr = SocketAddr::new(*rng.pick(&ips), port);
+            let mut c = match rng.below(if multihomed { 2 } else { 6 }) {
+                0..=1 => IceCandidate::host(addr, 1),
+                2 => chook::server_reflexive(SocketAddr::new(ips[0], port), addr, 1),
+                3 => chook::relay(addr, 1, "udp"),
+                _ => { let mut c = IceCandidate::host(addr, 1); c.typ = IceCandidateType::PeerReflexive; c.priority = chook::priority_for(IceCandidateType::PeerReflexive, 1); c }
+            };
+            if !multihomed { c.priority -= rng.below(200) as u32 * 256; }   // distinct local preferences, as RFC 8445 §5.1.2.1 asks for
+            c
+        };
+        let la: Vec<IceCandidate> = (0..rng.range(1, 4)).map(|_| mkc(rng)).collect();
+        let lb: Vec<IceCandidate> = (0..rng.range(1, 4)).map(|_| mkc(rng)).collect();
+        let mut lists = vec![];
+        for (role, locals, remotes) in [(IceRole::Controlling, &la, &lb), (IceRole::Controlled, &lb, &la)] {
+            let t = mk_transport(false, role);
+            for l in locals { t.verif_add_local_candidate(l.clone()); }
+            for r in remotes { t.verif_add_remote_candidate_quiet(r.clone()); }
+            pairs::take();
+            rt.block_on(t.verif_run_connectivity_checks());
+            lists.push(pairs::take().last().cloned().unwrap_or_default());
+            t.stop();
+        }
+        let a: Vec<(SocketAddr, SocketAddr, u64)> = lists[0].clone();
+        let b_swapped: Vec<(SocketAddr, SocketAddr, u64)> = lists[1].iter().map(|(l, r, p)| (*r, *l, *p)).collect();
+        let case = format!("twoagent A={} B={}", la.iter().map(|c| format!("{}/{}", c.address, c.priority)).collect::<Vec<_>>().join(","), lb.iter().map(|c| format!("{}/{}", c.address, c.priority)).collect::<Vec<_>>().join(","));
+        let key = |v: &[(SocketAddr, SocketAddr, u64)]| { let mut k: Vec<(SocketAddr, SocketAddr)> = v.iter().map(|x| (x.0, x.1)).collect(); k.sort(); k };
+        if key(&a) != key(&b_swapped) { run.count("twoagent_filter_not_symmetric_on_this_input"); continue; }
+        // the same pair must carry the same pair priority on both sides (RFC 8445 §6.1.2.3)
+        for x in &a { if let Some(y) = b_swapped.iter().find(|y| (y.0, y.1) == (x.0, x.1)) { if x.2 != y.2 { run.fail("codec:pair-order:agents-compute-different-priority-for-the-same-pair", &case, &format!("{x:?} vs {y:?}")); } } }
+        let mut prios: Vec<u64> = a.iter().map(|x| x.2).collect(); prios.sort(); let distinct = prios.windows(2).all(|w| w[0] != w[1]);
+        let same = a.iter().map(|x| (x.0, x.1)).eq(b_swapped.iter().map(|x| (x.0, x.1)));
+        if distinct {
+            run.count("twoagent_distinct_priorities");
+            if !same { run.fail("codec:pair-order:agents-disagree:distinct-pair-priorities", &case, &format!("{a:?} vs {b_swapped:?}")); }
+        } else {
+            run.count("twoagent_tied_priorities");
+            if !same { run.fail("codec:pair-order:agents-disagree:equal-pair-priorities", &case, &format!("{a:?} vs {b_swapped:?}")); }
+        }
+    }
+}
+
+/// (G) RFC 8445 §7.3.1.3: a peer-reflexive remote candidate learnt from an (authenticated) connectivity check gets
+/// the PRIORITY attribute of that check — otherwise the two agents hold different priorities for the same
+/// candidate and compute different pair priorities (the presupposition of the "same ordering" clause).
+pub fn prflx_priority_case(run: &mut Run, rt: &tokio::runtime::Runtime, controlling: bool, tcp: bool, prio: u32) {
+    use rustrtc::transports::ice::stun::{StunAttribute, StunMessage};
+    let role = if controlling { IceRole::Controlling } else { IceRole::Controlled };
+    let case = format!("prflx {} {} {prio}", if controlling { "controlling" } else { "controlled" }, tcp as u8);
+    let t = mk_transport_t(role, 50);
+    let lp = t.local_parameters();
+    let l = Arc::new(rt.block_on(tokio::net::UdpSocket::bind("127.0.0.1:0")).unwrap());
+    let lc = IceCandidate::host(l.local_addr().unwrap(), 1);
+    t.verif_add_local_udp(lc.clone(), l.clone());
+    let src: SocketAddr = "127.0.0.1:45678".parse().unwrap();
+    let mut m = StunMessage::binding_request([7; 12], Some("peer"));
+    m.attributes.push(StunAttribute::Username(format!("{}:{REMOTE_UFRAG}", lp.username_fragment)));
+    m.attributes.push(StunAttribute::Priority(prio));
+    m.attributes.push(if controlling { StunAttribute::IceControlled(1) } else { StunAttribute::IceControlling(1) });
+    let bytes = m.encode(Some(lp.password.as_bytes()), true).unwrap();
+    let wrapper = if tcp {
+        rt.block_on(async { let li = tokio::net::TcpListener::bind("127.0.0.1:0").await.unwrap(); let c = tokio::net::TcpStream::connect(li.local_addr().unwrap()).await.unwrap();
+            let (s, _) = li.accept().await.unwrap(); drop(c); let (r, w) = s.into_split();
+            IceSocketWrapper::TcpStream(Arc::new(tokio::sync::Mutex::new(r)), Arc::new(tokio::sync::Mutex::new(w)), src) })
+    } else { IceSocketWrapper::Udp(l.clone()) };
+    rt.block_on(t.verif_handle_packet(&bytes, src, wrapper));
+    match t.remote_candidates().iter().find(|c| c.address == src) {
+        None => run.fail("codec:pair-priority:peer-reflexive-candidate-not-learnt", &case, ""),
+        Some(c) => {
+            if c.typ != IceCandidateType::PeerReflexive { run.fail("codec:pair-priority:learnt-candidate-is-not-peer-reflexive", &case, &format!("{:?}", c.typ)); }
+            if c.priority != prio { run.fail("codec:pair-priority:peer-reflexive-candidate-priority-is-not-the-PRIORITY-attribute", &case, &format!("candidate priority {} vs PRIORITY {prio}", c.priority)); }
+            // what the sender (its local candidate has priority `prio`) and this agent compute for the pair
+            let theirs = rfc_pair_priority(!controlling, prio, lc.priority);
+            let ours = rustrtc::transports::ice::IceCandidatePair::new(lc.clone(), c.clone()).priority(role);
+            if theirs != ours { run.fail("codec:pair-order:agents-compute-different-priority-for-the-same-pair:peer-reflexive", &case, &format!("{theirs} vs {ours}")); }
+        }
+    }
+    // the same candidate signalled afterwards (trickle / late answer) replaces the learnt entry: one candidate per address
+    t.add_remote_candidate(IceCandidate::host(src, 1));
+    let same: Vec<_> = t.remote_candidates().into_iter().filter(|c| c.address == src && (c.transport == "tcp") == tcp).collect();
+    if !tcp && (same.len() != 1 || same[0].typ != IceCandidateType::Host) { run.fail("codec:pair-priority:signalled-candidate-does-not-supersede-the-learnt-peer-reflexive-entry", &case, &format!("{:?}", same.iter().map(|c| (c.typ, c.priority)).collect::<Vec<_>>())); }
+    run.count("agent_prflx_priority_cases");
+    t.stop();
+}
+
+pub fn replay(run: &mut Run, case: &str) -> bool {
+    let f: Vec<&str> = case.split(' ').collect();
+    let rt = tokio::runtime::Builder::new_current_thread().enable_all().build().unwrap();
+    match f[0] {
+        "select" if f.len() == 7 => { selection_case(run, &rt, f[1] == "controlling", f[2].parse().unwrap(), f[3].parse().unwrap(), f[4].parse().unwrap(), f[5].parse().unwrap(), f[6] == "1"); true }
+        "tcpcheck" | "tcp-check" if f.len() == 4 => { tcp_check_case(run, &rt, f[1] == "controlling", f[2] == "1", f[3] == "1"); true }
+        "prflx" if f.len() == 4 => { prflx_priority_case(run, &rt, f[1] == "controlling", f[2] == "1", f[3].parse().unwrap()); true }
+        "agentreq" if f.len() == 3 => { keepalive_probe_case(run, &rt, f[1], f[2] == "controlling"); true }
+        _ => false,
+    }
+}
+
 pub fn run_all(run: &mut Run, rng: &mut Rng, thorough: bool) {
     let rt = tokio::runtime::Builder::new_current_thread().enable_all().build().unwrap();
     order_cases(run, rng, &rt, thorough);
+    two_agent_cases(run, rng, &rt, thorough);
     message_cases(run, rng, &rt, thorough);
+    selection_cases(run, rng, &rt, thorough);
+    for controlling in [true, false] {
+        for (synth, respond) in [(false, false), (false, true), (true, true)] { if synth && !controlling { continue; } tcp_check_case(run, &rt, controlling, synth, respond); }
+        for tcp in [false, true] { for prio in [2130706431u32, 1694498815, 16777215, 1, rng.next() as u32] { prflx_priority_case(run, &rt, controlling, tcp, prio); } }
+        for kind in ["keepalive", "bare", "probe"] { for _ in 0..(if thorough { 10 } else { 2 }) { keepalive_probe_case(run, &rt, kind, controlling); } }
+    }
 }
